@@ -26,7 +26,11 @@ META = {
                   "srctools.keyvalues:_read_flag"],
     "bounds": "",      # filled in below
     "outside": "",
-    "stubs": [],
+    "stubs": ["srctools.tokenizer.BARE_DISALLOWED frozenset -> tuple (same members)", "srctools.keyvalues.sys.intern -> identity",
+              "crosshair LazyIntSymbolicStr.casefold fast path (validated on all ASCII code points)",
+              "srctools.keyvalues.FLAGS_DEFAULT dict -> ScanMap (same items, lookup by == scan; validated against the dict in setup)",
+              "flags= argument of Keyvalues.parse is a ScanMap (a Mapping[str, bool]) holding three symbolic bools",
+              "Tokenizer subclass `Counting` whose _next_char counts calls and delegates to the real method"],
     "trusted_base": ["crosshair-tool 0.0.110 symbolic str model", "z3 (z3-solver wheel 5.1.0 API)", "vf/chx.py driver"],
     "assumptions": ["pure-Python Tokenizer only (the Cython twin cannot be built here)",
                     "chunks are str (non-str chunks raise the documented ValueError and are outside the claim)"],
@@ -68,7 +72,8 @@ def setup(engine):
     if engine == "chx":
         from vf.stubs.common import text_stubs
         from vf.stubs.kvstubs import stub_flags_default
-        META["stubs"][:] = text_stubs() + stub_flags_default()
+        text_stubs()
+        stub_flags_default()
 
 
 _ERR = {}
@@ -363,7 +368,7 @@ def obligations(tier):
                     desc="one str == one chunk == every delivery with <= 2 cuts == one chunk per character (+ empty chunks); only the "
                          "configured error class; EOF repeats; <= 2*len+4 character reads",
                     bound="len(w) in {0,1} in all %d contexts; 7 option bits symbolic; private error subclass" % len(ctxs)))
-    obls.append(Obl("chunk.len2", MOD, "h_chunk", slices=_n2_slices(QUICK_N2 if quick else ctxs), budget_s=600, per_path_s=30,
+    obls.append(Obl("chunk.len2", MOD, "h_chunk", slices=_n2_slices(QUICK_N2 if quick else ctxs), budget_s=1500, per_path_s=30,
                     desc="same, two symbolic characters", bound="len(w) == 2; contexts: " + ", ".join(QUICK_N2 if quick else ctxs)))
     obls.append(Obl("chunk.errclass", MOD, "h_chunk",
                     slices=[{"n": 1, "ctx": c, "fam": "single", "err": e} for e in ("default", "kv")
